@@ -326,6 +326,22 @@ func runC17(r *Run, stratum string) *Violation {
 		c.plantIndex(sid, stored)
 	}
 
+	// another input of the same deployment: with a standalone target all inputs share one checkpoint key (that is why
+	// every field carries the replication id) and each has its own index entry. Maintenance carried out for one
+	// input must leave the other's position where its own next start finds it.
+	otherID := ""
+	var otherBefore cpPos
+	if !strings.HasPrefix(stratum, "gc") && g.Choose("otherinput", 2) == 0 {
+		otherID = hexID(g.Bytes("otherid", 20))
+		if otherID == oldID || otherID == newID {
+			otherID = hexID([]byte("a-third-id-a-third-id"))
+		}
+		for i := 0; i < 1+g.Choose("notherdb", 2); i++ {
+			c.plantCheckpoint(perm[g.Choose("otherdb", ndb)], stored, otherID, offset(), now.Add(-time.Duration(g.Choose("other_mt", 3600))*time.Second))
+		}
+		c.plantIndex(otherID, stored)
+	}
+
 	var ids []string
 	var extraServers []*simredis.Server
 	var opName string
@@ -412,6 +428,9 @@ func runC17(r *Run, stratum string) *Violation {
 
 	initial := c.srv.CloneDBs()
 	before := readPositionModel(c.srv, ids)
+	if otherID != "" {
+		otherBefore = readPositionModel(c.srv, []string{otherID})
+	}
 	r.Sample = fmt.Sprintf("%s op=%s ids=[%s.. %s..] local=%s before={ok=%v off=%d dbs=%v} state: %s", stratum, opName, ids[0][:6], ids[1][:6], local, before.ok, before.off, before.dbs, describeKeyspace(c.srv))
 	r.Logf("C17 %s", r.Sample)
 	isGC := strings.HasPrefix(stratum, "gc")
@@ -435,6 +454,25 @@ func runC17(r *Run, stratum string) *Violation {
 		if err != nil {
 			c.setViolation("C17.start_failed", "next start fails on the intermediate state", "after %d requests of %s the next start failed: %v; state: %s", k, opName, err, describeKeyspace(c.srv))
 			return
+		}
+		if otherID != "" && otherBefore.ok {
+			// the inputs restart one after the other: now the second one
+			ooff, odb, ofound, oerr := c.nextStart(local, []string{otherID, strings.Repeat("0", 40)})
+			okDB := false
+			for _, d := range otherBefore.dbs {
+				okDB = okDB || d == odb
+			}
+			switch {
+			case oerr != nil:
+				c.setViolation("C17.start_failed", "next start of another input sharing the checkpoint key fails", "after %d requests of %s and the restart of that input, the next start of input %s.. failed: %v; state: %s", k, opName, otherID[:6], oerr, describeKeyspace(c.srv))
+				return
+			case !ofound || ooff < otherBefore.off:
+				c.setViolation("C17.other_input_lost", "maintenance for one input loses the position of another input sharing the checkpoint key", "after %d requests of %s (db order rotation %d) and the restart of that input, input %s.. finds position %d (found=%v) but held %d in db %v before; state: %s", k, opName, salt, otherID[:6], ooff, ofound, otherBefore.off, otherBefore.dbs, describeKeyspace(c.srv))
+				return
+			case !okDB && ooff == otherBefore.off:
+				c.setViolation("C17.db", "another input sharing the checkpoint key resumes in a different target database", "after %d requests of %s (db order rotation %d) input %s.. resumes at %d in db %d, but held it in db %v", k, opName, salt, otherID[:6], ooff, odb, otherBefore.dbs)
+				return
+			}
 		}
 		if !before.ok {
 			return
